@@ -327,6 +327,7 @@ package types
 //@ func lemmaRoundTripDate
 //@   params d
 //@   returns (res, ok)
+//@   attr opaque = bcd.
 //@   define Y = time.year(d.abs, d.loc)
 //@   define M = time.month(d.abs, d.loc)
 //@   define D = time.day(d.abs, d.loc)
@@ -340,6 +341,7 @@ package types
 //@ func lemmaRoundTripDateTime
 //@   params d
 //@   returns (res, ok)
+//@   attr opaque = bcd.
 //@   define Y = time.year(d.abs, d.loc)
 //@   define ZERO = d.abs == 0 && d.ns == 0
 //@   define C = time.civil(Y, time.month(d.abs, d.loc), time.day(d.abs, d.loc), time.hour(d.abs, d.loc), time.minute(d.abs, d.loc), time.second(d.abs, d.loc))
